@@ -534,6 +534,13 @@ def tamper(case: VCase, rng, others):
         prot = json.loads(b64u_dec(first["protected"].encode()))
         if k != "j7797":
             mkj(with_first(header={"b64": False, "crit": ["b64"]}), "unprotected-b64")
+        if k == "flat" and "b64" not in prot:
+            # the same object handed to the RFC 7797 entry point: the unencoded-payload switch counts only when it is
+            # integrity protected, so an unprotected b64 next to a protected header must not change what is returned
+            for hdr in ({"b64": False, "crit": ["b64"]}, {"b64": False}, {"b64": True}):
+                out.append(VCase("j7797", with_first(header=hdr), case.key, case.reg, None,
+                                 "unprotected-b64-beside-protected-" + "-".join(f"{a}={b}" for a, b in sorted(hdr.items())), case.meta))
+            out.append(VCase("j7797", copy.deepcopy(v), case.key, case.reg, None, "valid-flat-via-7797", case.meta))
         nh = dict(prot)
         nh["alg"] = "none"
         mkj(with_first(protected=b64u(json.dumps(nh).encode()).decode(), signature=""), "alg-none-downgrade")
